@@ -86,6 +86,24 @@ func (self Compiler) getMangledFn(input string) (string, bool) {
 		}
 	}
 
+	// An imported function is looked up in the module it was imported from:
+	// other modules may define unrelated functions with the same name.
+	for _, imported := range self.analyzedSource[self.currModule].Imports {
+		if !imported.TargetIsHMS {
+			continue
+		}
+
+		for _, item := range imported.ToImport {
+			if item.Ident.Ident() != input {
+				continue
+			}
+
+			if fn, found := self.modules[imported.FromModule.Ident()][input]; found {
+				return fn.MangledName, true
+			}
+		}
+	}
+
 	// TODO: i don't think that this is really reliable
 	for _, module := range self.modules {
 		for key, fn := range module {
